@@ -8,7 +8,7 @@ use crate::model::{F, MV};
 use proptest::prelude::*;
 use serde::{Deserialize, Serialize};
 
-pub const RULE: &str = "number lists of length 1..50 (small integers, fractions, negatives, duplicates, +-0, +-inf, magnitudes up to 1e308 and down to subnormals; no NaN) with two percentile ranks p1<=p2 in [0,100] (0, 50, 100 and random) and a permutation; every aggregate is evaluated as f(list), f(...list) and f(x1, .., xn) (and f([x]) vs f(x)) and compared with Rust reference computations on the same doubles. Non-trivial = length >= 2 with at least two distinct elements; distinct by the list's bit patterns.";
+pub const RULE: &str = "number lists of length 1..50 (small integers, fractions, negatives, duplicates, +-0, +-inf, magnitudes up to 1e308 and down to subnormals; no NaN) with two percentile ranks p1<=p2 in [0,100] (0, 50, 100 and random) and a permutation; every aggregate is evaluated as f(list), f(...list), f(x1, .., xn), with the arguments cut into several spreads with empty spreads before, between and after them (and f([x]) vs f(x)) and compared with Rust reference computations on the same doubles. Non-trivial = length >= 2 with at least two distinct elements; distinct by the list's bit patterns.";
 pub const ASSUMPTIONS: &[&str] = &[
     "sum / prod / avg are held to a rounding bound (n*eps*sum|x|, resp. relative n*eps) only where no partial result over- or underflows; otherwise only the result class is checked, because the order of operations then legitimately matters",
     "median of an even-length list must lie between the two middle order statistics (inclusive) and equal (a+b)/2, a/2+b/2 or a+(b-a)/2 computed in IEEE doubles; with an infinite middle value it is that infinity (NaN for -inf and +inf)",
@@ -150,7 +150,22 @@ impl Check for Aggregates {
                 Ok(x) => *x,
                 Err(e) => fail!(format!("{}:list-form-fails", agg), "{}(l) failed for l = {}: {}", agg, list.to_source(false), e),
             };
-            for (name, v) in [("spread", &v_spread), ("varargs", &v_args)] {
+            // the spread convention, however the arguments are cut into spreads (empty ones included)
+            let cut = n / 2;
+            sess.bind("l1", &MV::List(xs[..cut].iter().map(|x| MV::Num(F(*x))).collect()));
+            sess.bind("l2", &MV::List(xs[cut..].iter().map(|x| MV::Num(F(*x))).collect()));
+            let v_mixed: Vec<(&str, Result<f64, String>)> = [
+                ("spread-after-empty-spread", "AGG(...[], ...l)"),
+                ("spread-before-empty-spread", "AGG(...l, ...[])"),
+                ("two-empty-spreads-then-spread", "AGG(...[], ...[], ...l)"),
+                ("two-spreads", "AGG(...l1, ...l2)"),
+                ("spread-empty-spread-spread", "AGG(...l1, ...[], ...l2)"),
+                ("spread-of-spread-list", "AGG(...[...l1, ...l2])"),
+            ]
+            .iter()
+            .map(|(name, src)| (*name, getnum(&sess.probe(&src.replace("AGG", agg)))))
+            .collect();
+            for (name, v) in [("spread", &v_spread), ("varargs", &v_args)].into_iter().chain(v_mixed.iter().map(|(n, v)| (*n, v))) {
                 match v {
                     Ok(x) if bits_eq(*x, got) => {}
                     other => fail!(
